@@ -181,12 +181,30 @@ def parse_result(obs):
 
 
 # ---------------- dictionaries
+_builtin_cache = {}
+
+
 def builtin_xml(repo):
-    src = open(f"{repo}/src/dictionary.rs", encoding="utf-8").read()
-    m = re.search(r'DEFAULT_DICT_XML: &\'static str = \{\s*let xml = r#"(.*?)"#;', src, flags=re.S)
-    if not m:
-        raise RuntimeError("cannot locate DEFAULT_DICT_XML in src/dictionary.rs")
-    return m.group(1)
+    """the built-in dictionary document: asked from the library itself (public static DEFAULT_DICT_XML, through
+    the harness), so that moving the text around inside the crate is not an event; falls back to the source text"""
+    if repo in _builtin_cache:
+        return _builtin_cache[repo]
+    xml = None
+    try:
+        import core
+        out, crashed, why = core.run_batch([core.build_harness("dev"), "codec"], ["BUILTINXML"], timeout=120)
+        if out and out[0].startswith("XML x"):
+            xml = bytes.fromhex(out[0][5:]).decode("utf-8")
+    except Exception:
+        xml = None
+    if xml is None:
+        src = open(f"{repo}/src/dictionary.rs", encoding="utf-8").read()
+        m = re.search(r'DEFAULT_DICT_XML: &\'static str = \{\s*let xml = r#"(.*?)"#;', src, flags=re.S)
+        if not m:
+            raise RuntimeError("cannot obtain the built-in dictionary document (DEFAULT_DICT_XML)")
+        xml = m.group(1)
+    _builtin_cache[repo] = xml
+    return xml
 
 
 def xml_apps(xml_text):
